@@ -90,13 +90,14 @@ struct Parsed {
 // Runs the receive path.  `cap`: message buffer capacity; `fill`: byte the unused buffer is pre-filled with;
 // `read_sizes`: sizes of successive body reads (cyclic).
 inline Parsed parse_message(bool is_request, const std::string& input, const std::vector<size_t>& frags, uint16_t cap, unsigned char fill,
-                            const std::vector<size_t>& read_sizes, bool head_verb = false) {
+                            const std::vector<size_t>& read_sizes, bool head_verb = false, const std::string* stale = nullptr) {
     Parsed P;
     MockSocket sock;
     sock.in = input; sock.frags = frags;
     sock.step_bound = 10 * (long)input.size() + 100;
     char* buf = (char*)malloc(cap);          // exact-size heap block: ASan guards the ends
     memset(buf, fill, cap);
+    if (stale) memcpy(buf, stale->data(), std::min<size_t>(stale->size(), cap));   // a re-used buffer still holding an earlier message
     auto finish = [&]() { P.bound_hit = sock.bound_hit; free(buf); };
     auto collect = [&](http::Message& m) {
         for (auto it = m.headers.begin(); it != m.headers.end(); ++it) P.headers.push_back({std::string(it.first()), std::string(it.second())});
